@@ -10,7 +10,7 @@ Definition I (z : Z) : val := Some (inject_Z z).
 Definition F (n : Z) (d : positive) : val := Some (n # d).
 Definition NA : val := None.
 Definition R (tg : list Z) (sl : list (list Z)) : raw := {| r_tags := tg; r_slots := sl |}.
-Definition S_ (w : what) (by_ : bool) : sel := {| s_what := w; s_by := by_ |}.
+Definition S_ (w : what) (by_ : option (list nat)) : sel := {| s_what := w; s_by := by_ |}.
 (* axis made of LODs (t0, step, n): t0, t0+step, ... (n points) each; tsstep = Timescale.Step *)
 Definition Y (counter : bool) (ntags : nat) (tsstep : Z) (lods : list (Z * Z * nat)) (startx vs ve : Z) : query :=
   {| q_counter := counter; q_ntags := ntags;
